@@ -44,6 +44,100 @@ theorem records_frames (reg : Registry) (fs : List Frame) (rs : List Record)
             · cases h1; rfl
         simp [hf, ih rt h2]
 
+/-- the cache holds registry sources -/
+def CacheOk (reg : Registry) (c : List (Str × Str)) : Prop :=
+  ∀ n own, c.lookup n = some own → ∃ i, reg.lookup n = some i ∧ own = i.source
+
+theorem lookup_cons_str (n k : Str) (v : Str) (c : List (Str × Str)) :
+    List.lookup n ((k, v) :: c) = if n = k then some v else c.lookup n := by
+  by_cases h : n = k
+  · subst h; simp
+  · have e : (n == k) = false := by simp [h]
+    rw [List.lookup_cons, e]; simp [h]
+
+/-- with a cache that keeps the source every record carries its own template's source -/
+theorem sourcesFrom_keeps (reg : Registry) (st : List (Str × Str) × Option Str) (fs : List Frame)
+    (hc : CacheOk reg st.1) :
+    sourcesFrom true reg st fs = fs.map fun f => (reg.lookup f.filename).map (·.source) := by
+  induction fs generalizing st with
+  | nil => rfl
+  | cons f t ih =>
+    simp only [sourcesFrom, List.map_cons]
+    cases hl : st.1.lookup f.filename with
+    | some own =>
+      obtain ⟨i, hi, ho⟩ := hc _ _ hl
+      have e : srcStep true reg st f = ((st.1, some own), some own) := by simp [srcStep, hl]
+      rw [e, hi, ho]
+      simp only [Option.map_some]
+      congr 1
+      exact ih (st.1, some i.source) hc
+    | none =>
+      cases hr : reg.lookup f.filename with
+      | none =>
+        have e : srcStep true reg st f = (st, none) := by simp [srcStep, hl, hr]
+        rw [e]; simp only [Option.map_none]; congr 1; exact ih st hc
+      | some info =>
+        have e : srcStep true reg st f =
+            (((f.filename, info.source) :: st.1, some info.source), some info.source) := by
+          simp [srcStep, hl, hr]
+        rw [e]; simp only [Option.map_some]; congr 1
+        apply ih
+        intro n own hn
+        simp only at hn
+        rw [lookup_cons_str] at hn
+        split at hn
+        · rename_i hnk; cases hn; exact ⟨info, by rw [hnk]; exact hr, rfl⟩
+        · exact hc n own hn
+
+/-- without it: as long as only one template module occurs, every record carries its own template's source -/
+theorem sourcesFrom_single (reg : Registry) (st : List (Str × Str) × Option Str) (fs : List Frame)
+    (hst : ∀ n own, st.1.lookup n = some own → ∃ i, reg.lookup n = some i ∧ st.2 = some i.source)
+    (hone : ∀ f ∈ fs, ∀ g ∈ fs, reg.lookup f.filename ≠ none → reg.lookup g.filename ≠ none → f.filename = g.filename)
+    (hseen : ∀ n own, st.1.lookup n = some own → ∀ f ∈ fs, reg.lookup f.filename ≠ none → f.filename = n) :
+    sourcesFrom false reg st fs = fs.map fun f => (reg.lookup f.filename).map (·.source) := by
+  induction fs generalizing st with
+  | nil => rfl
+  | cons f t ih =>
+    have ht1 : ∀ a ∈ t, ∀ g ∈ t, reg.lookup a.filename ≠ none → reg.lookup g.filename ≠ none → a.filename = g.filename :=
+      fun a ha g hg => hone a (by simp [ha]) g (by simp [hg])
+    simp only [sourcesFrom, List.map_cons]
+    cases hl : st.1.lookup f.filename with
+    | some own =>
+      obtain ⟨i, hi, hcur⟩ := hst _ _ hl
+      have e : srcStep false reg st f = (st, st.2) := by simp [srcStep, hl]
+      rw [e, hi, hcur]
+      simp only [Option.map_some]
+      congr 1
+      exact ih st hst ht1 (fun n own hn g hg => hseen n own hn g (by simp [hg]))
+    | none =>
+      cases hr : reg.lookup f.filename with
+      | none =>
+        have e : srcStep false reg st f = (st, none) := by simp [srcStep, hl, hr]
+        rw [e]; simp only [Option.map_none]; congr 1
+        exact ih st hst ht1 (fun n own hn g hg => hseen n own hn g (by simp [hg]))
+      | some info =>
+        have e : srcStep false reg st f =
+            (((f.filename, info.source) :: st.1, some info.source), some info.source) := by
+          simp [srcStep, hl, hr]
+        have hreg : reg.lookup f.filename ≠ none := by rw [hr]; simp
+        rw [e]; simp only [Option.map_some]; congr 1
+        apply ih
+        · intro n own hn
+          simp only at hn
+          rw [lookup_cons_str] at hn
+          split at hn
+          · rename_i hnk; cases hn; exact ⟨info, by rw [hnk]; exact hr, rfl⟩
+          · rename_i hnk
+            have := hseen n own hn f (by simp) hreg
+            exact absurd this.symm hnk
+        · exact ht1
+        · intro n own hn g hg hgr
+          simp only at hn
+          rw [lookup_cons_str] at hn
+          split at hn
+          · rename_i hnk; rw [hnk]; exact hone g (by simp [hg]) f (by simp) hgr hreg
+          · exact hseen n own hn g (by simp [hg]) hgr
+
 theorem pickLine_innermost (pre post : List Record) (r : Record) (fn : Str) (ln : Nat)
     (hr : r.hit = some (fn, ln)) (hpost : ∀ q ∈ post, q.hit = none) :
     pickLine (pre ++ r :: post) = some (fn, ln) := by
